@@ -1,7 +1,8 @@
 From Coq Require Import extraction.Extraction extraction.ExtrOcamlBasic.
-From TU Require Import Base C08_Model Pipeline_Model C08_Pipeline Pipeline_Tasks C08_Bytes Pipeline_Spell Pipeline_Stages.
-(** lines -5 / -6 / -7 (topic N: stage tables, TokenMasking, the Geometric sampler): Pipeline_Stages; every other line as before *)
-Definition run := run_C08n run_C08z.
-Definition check := check_C08n.
-Definition agree := agree_C08n.
+From TU Require Import Base C08_Model Pipeline_Model C08_Pipeline Pipeline_Tasks C08_Bytes Pipeline_Spell Pipeline_Stages Pipeline_Toks.
+(** lines -5 / -6 / -7 (topic N: stage tables, TokenMasking, the Geometric sampler): Pipeline_Stages; lines -8 / -9 (topic Q: every
+    tokenizer kind in the task): Pipeline_Toks; every other line as before *)
+Definition run := run_C08q (run_C08n run_C08z).
+Definition check := check_C08q.
+Definition agree := agree_C08q.
 Extraction "model.ml" run check agree.
